@@ -37,7 +37,7 @@ type listCase struct {
 	Empty int          `json:"empty"` // >= 0: that (real) position holds Empty() instead
 }
 
-var itemRe = regexp.MustCompile(`a[0-9][0-9]`)
+var itemRe = regexp.MustCompile(`a[0-9][0-9]+`)
 
 func tokens(src []byte) ([]string, error) {
 	fs := token.NewFileSet()
@@ -80,7 +80,7 @@ func checkList(c listCase) error {
 	var ids []string
 	k := 0
 	for i := 0; i < c.Arity; i++ {
-		if c.Mask&(1<<uint(i)) != 0 {
+		if c.Mask&(1<<uint(i%32)) != 0 {
 			kind := mutate.NullKinds[c.Kinds[k%len(c.Kinds)]%len(mutate.NullKinds)]
 			k++
 			with = append(with, mutate.NullItem(kind))
@@ -117,7 +117,7 @@ func checkList(c listCase) error {
 	if strings.Join(seen, " ") != strings.Join(ids, " ") {
 		return fmt.Errorf("%s: rendered items %v, want %v", c.Fn, seen, ids)
 	}
-	if c.Empty >= 0 && c.Empty < c.Arity && c.Mask&(1<<uint(c.Empty)) == 0 {
+	if c.Empty >= 0 && c.Empty < c.Arity && c.Mask&(1<<uint(c.Empty%32)) == 0 {
 		// Empty() produces no text but takes part in separation like a real item
 		mk, err := renderList(c.Fn, c.Opts, marked)
 		if err != nil {
@@ -170,7 +170,7 @@ func checkSlice(c sliceCase) error {
 		k := 0
 		b := &recipe.Builder{}
 		for i := 0; i < c.Arity; i++ {
-			if c.Mask&(1<<uint(i)) != 0 {
+			if c.Mask&(1<<uint(i%32)) != 0 {
 				items = append(items, b.Code(mutate.NullItem(mutate.NullKinds[c.Kinds[k%len(c.Kinds)]%len(mutate.NullKinds)])))
 				k++
 				continue
@@ -397,7 +397,7 @@ func TestC13(t *testing.T) {
 	ckR := hx.Check[listCase]{Name: "synthetic_list_random", Fn: checkList}
 	fns := listFns()
 	hx.Rapid(r, t, ckR, r.N(1500, 20000), func(rt *rapid.T) listCase {
-		c := listCase{Fn: rapid.SampledFrom(fns).Draw(rt, "fn"), Arity: rapid.SampledFrom([]int{0, 1, 2, 3, 4, 5, 6, 7, 8, 9, 10, 12, 15, 16, 17, 24, 31}).Draw(rt, "arity"), Empty: -1}
+		c := listCase{Fn: rapid.SampledFrom(fns).Draw(rt, "fn"), Arity: rapid.SampledFrom([]int{0, 1, 2, 3, 4, 5, 6, 7, 8, 9, 10, 12, 15, 16, 17, 24, 31, 32, 33, 63, 64, 65, 100, 127, 128, 129, 255, 256, 257, 1000}).Draw(rt, "arity"), Empty: -1}
 		if c.Fn == "Custom" {
 			c.Opts = &recipe.Opts{
 				Open:      recipe.Text(rapid.SampledFrom([]string{"", "(", "<", "{", "x "}).Draw(rt, "open")),
@@ -414,15 +414,18 @@ func TestC13(t *testing.T) {
 		if c.Arity > 0 && rapid.Bool().Draw(rt, "hasempty") {
 			c.Empty = rapid.IntRange(0, c.Arity-1).Draw(rt, "empty")
 		}
-		if c.Mask != 0 && c.Arity-popcount(c.Mask) > 0 {
+		if c.Mask != 0 && (c.Arity > 32 && c.Mask != 1<<32-1 || c.Arity-popcount(c.Mask) > 0) {
 			r.NonTrivial(fmt.Sprintf("%+v", c))
+		}
+		if c.Arity > 31 {
+			r.Class("arity>31")
 		}
 		return c
 	})
 
 	ckS := hx.Check[sliceCase]{Name: "shared_slice", Fn: checkSlice}
 	hx.Rapid(r, t, ckS, r.N(1500, 15000), func(rt *rapid.T) sliceCase {
-		c := sliceCase{First: rapid.SampledFrom(fns).Draw(rt, "first"), Second: rapid.SampledFrom(fns).Draw(rt, "second"), Arity: rapid.IntRange(1, 9).Draw(rt, "arity")}
+		c := sliceCase{First: rapid.SampledFrom(fns).Draw(rt, "first"), Second: rapid.SampledFrom(fns).Draw(rt, "second"), Arity: rapid.OneOf(rapid.IntRange(1, 9), rapid.IntRange(1, 9), rapid.SampledFrom([]int{15, 16, 17, 31, 32, 33, 63, 64, 65, 100, 128, 129})).Draw(rt, "arity")}
 		c.Mask = rapid.Uint32().Draw(rt, "mask") & (1<<uint(c.Arity) - 1)
 		for i := rapid.IntRange(1, 4).Draw(rt, "nkinds"); i > 0; i-- {
 			c.Kinds = append(c.Kinds, rapid.IntRange(0, len(mutate.NullKinds)-1).Draw(rt, "kind"))
